@@ -410,8 +410,10 @@ def configs(tier, seed):
     for name in ("table", "table-row-ref", "mux", "dtc", "dynlen-field", "static-field",
                  "endmarker-field-mid", "length-key", "structure-bytesize", "physconst-reserved",
                  "endmarker-field-limited-end-dop", "static-field-minmax-last", "mux-key-bits",
-                 "mux-in-structure", "dynlen-field-signed-count"):
+                 "mux-in-structure", "dynlen-field-signed-count", "length-key-limited-dop"):
         for n in ((2, 3, 4, 5) if tier == "quick" else range(0, 8)):
+            if name == "length-key-limited-dop" and n > 4:
+                continue  # every value of the key is a floating-point query
             if name == "endmarker-field-limited-end-dop" and n > (4 if tier == "quick" else 5):
                 continue  # the probe of every item forks on the text table
             out.append({"id": f"compdec/{name}/len{n}", "harness": "compdec", "what": "request",
